@@ -1,0 +1,91 @@
+//go:build verif
+
+package jit
+
+// Contracts for govc (contract-based deductive verification). Comment-only: this file
+// contributes no declarations and is compiled only with -tags verif.
+
+// ---- JIT cache and specializations (C15) -----------------------------------------------
+//@ monitor JITCompiler.unitsMux guards units also CompilationUnit.Bytecode, CompilationUnit.Tier, CompilationUnit.CompiledAt invariant self.units != nil && forall(k, string, has(self.units, k) ==> self.units[k] != nil)
+//@ monitor SpecializationCache.mutex guards specializations also TypeSpecialization.IsValid invariant self.specializations != nil && forall(r, string, has(self.specializations, r) ==> len(self.specializations[r]) <= self.maxPerRoute || self.maxPerRoute < 1)
+
+// tier -> optimisation level table
+//@ spec func levelOf(t OptimizationTier) compiler.OptimizationLevel = ite(t == TierOptimized, compiler.OptBasic, ite(t == TierHighlyOptimized, compiler.OptAggressive, compiler.OptNone))
+//@ func (*JITCompiler).compileWithTier
+//@   modifies nothing
+//@   callpre compiler.NewCompilerWithOptLevel arg0 == levelOf(tier)
+//@   ensures err == nil ==> bcsrc(result) == route
+
+//@ func (*JITCompiler).getNextTier
+//@   modifies nothing
+//@   ensures result >= current && (current == TierInterpreted ==> result == TierBaseline) && (current == TierBaseline ==> result == TierOptimized) && (current == TierOptimized ==> result == TierHighlyOptimized) && (current >= TierHighlyOptimized ==> result == current)
+
+// After an invalidation nothing cached for the route remains: neither a unit nor a valid specialization.
+//@ spec func noValidSpec(sc *SpecializationCache, name string) bool = forall(i, 0, len(sc.specializations[name]), !sc.specializations[name][i].IsValid)
+//@ func (*JITCompiler).InvalidateCache
+//@   requires jit != nil && jit.specializationCache != nil
+//@   strict
+//@   ensures !has(jit.units, name)
+//@   ensures noValidSpec(jit.specializationCache, name)
+
+//@ func (*JITCompiler).ClearCache
+//@   requires jit != nil && jit.specializationCache != nil
+//@   strict
+//@   ensures len(jit.units) == 0
+//@   ensures forall(r, string, noValidSpec(jit.specializationCache, r))
+
+//@ func (*JITCompiler).RecordDeoptimization
+//@   requires jit != nil && jit.specializationCache != nil
+//@   ensures noValidSpec(jit.specializationCache, routeName)
+
+//@ func (*SpecializationCache).InvalidateSpecializations
+//@   requires sc != nil
+//@   ensures noValidSpec(sc, routeName)
+//@   loop 1 invariant 0 <= rangeidx && forall(i, 0, rangeidx, !specs[i].IsValid) && specs == sc.specializations[routeName] && heldw(addr(sc.mutex))
+
+//@ func (*SpecializationCache).GetSpecialization
+//@   requires sc != nil
+//@   ensures result != nil ==> result.IsValid
+//@   loop 1 invariant 0 <= rangeidx && heldw(addr(sc.mutex)) || held(addr(sc.mutex))
+
+//@ func (*SpecializationCache).AddSpecialization
+//@   requires sc != nil
+//@   ensures result != nil && result.IsValid
+
+//@ func (*SpecializationCache).evictLeastUsed
+//@   requires sc != nil && heldw(addr(sc.mutex)) && sc.specializations != nil
+//@   modifies mapof(sc.specializations), elems(sc.specializations[routeName])
+//@   ensures old(len(sc.specializations[routeName])) > 0 ==> len(sc.specializations[routeName]) == old(len(sc.specializations[routeName])) - 1
+//@   ensures old(len(sc.specializations[routeName])) == 0 ==> len(sc.specializations[routeName]) == 0
+//@   ensures forall(r, string, r != routeName ==> has(sc.specializations, r) == old(has(sc.specializations, r)) && sc.specializations[r] == old(sc.specializations[r]))
+//@   ensures has(sc.specializations, routeName) == old(has(sc.specializations, routeName)) || old(len(sc.specializations[routeName])) > 0
+//@   loop 1 invariant 0 <= rangeidx && 0 <= minIdx && minIdx < len(specs)
+
+// CompileRoute: a cache miss compiles the route passed in; unit fields are only touched under unitsMux.
+//@ func (*JITCompiler).CompileRoute
+//@   requires jit != nil
+//@   strict
+//@   check !exists && err == nil ==> bcsrc(result) == route
+
+//@ func (*JITCompiler).recompileRoute
+//@   requires jit != nil && currentUnit != nil
+//@   strict
+//@   ensures err == nil ==> bcsrc(result) == route && currentUnit.Bytecode == result
+
+//@ func (*JITCompiler).shouldRecompile
+//@   requires jit != nil && unit != nil
+//@   strict
+
+//@ func (*SpecializationCache).InvalidateAll
+//@   requires sc != nil
+//@   ensures forall(r, string, noValidSpec(sc, r))
+//@   loop 1 invariant heldw(addr(sc.mutex)) && sc.specializations == atlock(sc.specializations) && forall(r, string, has(sc.specializations, r) == atlock(has(sc.specializations, r)) && sc.specializations[r] == atlock(sc.specializations[r])) && forall(r, string, visited(1, r) ==> noValidSpec(sc, r))
+//@   loop 2 invariant 0 <= rangeidx && heldw(addr(sc.mutex)) && sc.specializations == atlock(sc.specializations) && forall(r, string, has(sc.specializations, r) == atlock(has(sc.specializations, r)) && sc.specializations[r] == atlock(sc.specializations[r])) && forall(i, 0, rangeidx, !specs[i].IsValid) && forall(r, string, pre(visited(1, r)) && specs != sc.specializations[r] ==> noValidSpec(sc, r)) && forall(r, string, visited(1, r) == pre(visited(1, r)))
+
+// helpers without effect on contract-visible state
+//@ func typeSignature
+//@   trusted
+//@   modifies nothing
+//@ func typesMatch
+//@   trusted
+//@   modifies nothing
